@@ -34,6 +34,9 @@ claimed.update({
     "SQLite backend; PostgreSQL's rendering represented by generated strings in its default IntervalStyle; absent and zero optional durations compared as equal",
     "bounded-exhaustive configuration / update-sequence / duration enumeration against the harness's own expected-configuration record"),
 })
+claimed["C09"]=dict(level="fault_enumeration", engine="E3 FaultEnum", technique="exhaustive fault-point enumeration: operation x every BEGIN/statement/COMMIT index x {driver error, cancelled context} through a database/sql driver wrapper",
+   text="35 mutating operations (publish single/batch, create/delete/update topic and subscription, ack, nack with and without dead-letter move, modify-deadline 0 / positive spanning two subscriptions, pull empty / with messages / redelivery / with dead-letter move, stream ack+nack in one transaction, seek to time and snapshot, create/delete snapshot, dead-letter sweep, each of the 7 maintenance jobs through the production runOnce), each from a prepared state: the k-th BEGIN / SQL statement / COMMIT fails for EVERY k, with a driver error and with the request context cancelled at that point. Each faulted run must return an error, leave all five tables identical, close no registered waiter channel; a fault-free retry must end in the tables of the fault-free run.",
+   note="an injected COMMIT failure really rolls back (commit-outcome-unknown is not modelled); SQLite only; a failed Pull may keep its separate activity refresh", ref="§6 C09")
 pending_reason="not claimed yet in this session: check under construction (see DESIGN.md §6); no alarm is raised for it"
 checks=[]
 for p in props:
@@ -56,6 +59,7 @@ m={
  "hooks":{"guard":"verif","enable":"go1.26.8 test -c -tags verif -vet=off -overlay /verif/.build/overlay/overlay.json (overlay adds export files and sync-shim rewrites; /repo sources are never modified for instrumentation)",
           "baseline_off_cmd":"/verif/baseline.sh","source_commits":[],"add_only":True},
  "engines":[
+  {"name":"E3 FaultEnum","path":"/verif/mc/checks/c09_test.go","serves_properties":["C09"],"kind_free_text":"crash/fault point enumeration over the SQL statement stream of each operation (vsql driver wrapper)"},
   {"name":"E4 InputEnum","path":"/verif/mc/checks","serves_properties":[p for p in props if p in claimed and claimed[p]["engine"].startswith("E4")],"kind_free_text":"bounded-exhaustive input enumeration against independent references (filter evaluator / recogniser, expected-configuration record, live server subprocess)"},
   {"name":"E1 HistoryMC","path":"/verif/mc/hist","serves_properties":[p for p in props if p in claimed and claimed[p]["engine"].startswith("E1")],"kind_free_text":"explicit-state BFS over API histories executed on the real code; state = canonical table dump + model digest; 16 worker processes"},
  ],
